@@ -35,15 +35,22 @@ type Solver struct {
 	log     io.Writer
 	timeoutMs int
 	buf     strings.Builder
+	oneShot map[string]uint64 // variable assignment of the last one-shot Sat answer (nil otherwise)
+	OneShots int
+	incTimeoutMs int
 }
 
 func NewSolver(kind string, ctx *Ctx, timeoutMs int) (*Solver, error) {
 	var cmd *exec.Cmd
+	inc := timeoutMs
+	if inc > 8000 {
+		inc = 8000 // the incremental core gets a short budget; hard queries go to a one-shot process
+	}
 	switch kind {
 	case "z3":
-		cmd = exec.Command("z3", "-in", fmt.Sprintf("-t:%d", timeoutMs))
+		cmd = exec.Command("z3", "-in", fmt.Sprintf("-t:%d", inc))
 	case "z3-new":
-		cmd = exec.Command("z3-new", "-in", fmt.Sprintf("-t:%d", timeoutMs))
+		cmd = exec.Command("z3-new", "-in", fmt.Sprintf("-t:%d", inc))
 	case "cvc5":
 		cmd = exec.Command("cvc5", "--incremental", "--lang=smt2", fmt.Sprintf("--tlimit-per=%d", timeoutMs))
 	default:
@@ -212,6 +219,7 @@ func (s *Solver) Check(pc []*Term, extra *Term) (SatResult, error) {
 		full = append(append([]*Term{}, pc...), extra)
 	}
 	t0 := time.Now()
+	s.oneShot = nil
 	s.setStack(full)
 	s.send("(check-sat)\n")
 	lines, err := s.sync()
@@ -231,7 +239,119 @@ func (s *Solver) Check(pc []*Term, extra *Term) (SatResult, error) {
 		s.Unsat++
 		return Unsat, nil
 	}
-	s.Unknown++
+	// the incremental core gave up (short timeout): decide the same query in a fresh process, where the
+	// solver may use its full preprocessing / bit-blasting pipeline
+	t1 := time.Now()
+	r, err := s.checkOneShot(full)
+	s.Time += time.Since(t1)
+	s.OneShots++
+	if err != nil {
+		return Unknown, err
+	}
+	switch r {
+	case Sat:
+		s.Sat++
+	case Unsat:
+		s.Unsat++
+	default:
+		s.Unknown++
+	}
+	return r, nil
+}
+
+// checkOneShot writes a standalone script for the conjunction and runs a fresh solver process on it.
+func (s *Solver) checkOneShot(pc []*Term) (SatResult, error) {
+	var sb strings.Builder
+	seen := map[int]bool{}
+	var order []*Term
+	var vars []*Term
+	ufs := map[string]bool{}
+	var ufOrd []string
+	var visit func(t *Term)
+	visit = func(t *Term) {
+		if seen[t.ID] {
+			return
+		}
+		seen[t.ID] = true
+		for _, a := range t.Args {
+			visit(a)
+		}
+		switch t.K {
+		case KConst:
+		case KVar:
+			vars = append(vars, t)
+		default:
+			if t.K == KUF && !ufs[t.Name] {
+				ufs[t.Name] = true
+				ufOrd = append(ufOrd, t.Name)
+			}
+			order = append(order, t)
+		}
+	}
+	for _, t := range pc {
+		visit(t)
+	}
+	logic := "QF_BV"
+	if len(ufOrd) > 0 {
+		logic = "QF_UFBV"
+	}
+	sb.WriteString("(set-option :produce-models true)\n(set-logic " + logic + ")\n")
+	for _, v := range vars {
+		fmt.Fprintf(&sb, "(declare-const %s %s)\n", smtName(v.Name), sortStr(v.W))
+	}
+	for _, n := range ufOrd {
+		sig := s.ctx.ufs[n]
+		var as []string
+		for _, w := range sig[:len(sig)-1] {
+			as = append(as, sortStr(w))
+		}
+		fmt.Fprintf(&sb, "(declare-fun %s (%s) %s)\n", smtName(n), strings.Join(as, " "), sortStr(sig[len(sig)-1]))
+	}
+	for _, t := range order {
+		fmt.Fprintf(&sb, "(define-fun t%d () %s %s)\n", t.ID, sortStr(t.W), body(t))
+	}
+	for _, t := range pc {
+		sb.WriteString("(assert " + ref(t) + ")\n")
+	}
+	sb.WriteString("(check-sat)\n")
+	if len(vars) > 0 {
+		sb.WriteString("(get-value (")
+		for _, v := range vars {
+			sb.WriteString(smtName(v.Name) + " ")
+		}
+		sb.WriteString("))\n")
+	}
+	f, err := os.CreateTemp("", "gosmt-oneshot-*.smt2")
+	if err != nil {
+		return Unknown, err
+	}
+	defer os.Remove(f.Name())
+	f.WriteString(sb.String())
+	f.Close()
+	bin := "z3-new"
+	if s.name == "z3" {
+		bin = "z3"
+	}
+	cmd := exec.Command(bin, fmt.Sprintf("-T:%d", s.timeoutMs/1000+1), f.Name())
+	out, _ := cmd.Output()
+	txt := string(out)
+	lines := strings.SplitN(strings.TrimSpace(txt), "\n", 2)
+	switch strings.TrimSpace(lines[0]) {
+	case "unsat":
+		return Unsat, nil
+	case "sat":
+		m := map[string]uint64{}
+		if len(lines) > 1 && len(vars) > 0 {
+			vals := parseValues(lines[1])
+			if len(vals) == len(vars) {
+				for i, v := range vars {
+					m[v.Name] = vals[i]
+				}
+			}
+		}
+		s.oneShot = m
+		return Sat, nil
+	}
 	return Unknown, nil
 }
 
@@ -239,6 +359,18 @@ func (s *Solver) Check(pc []*Term, extra *Term) (SatResult, error) {
 func (s *Solver) Values(ts []*Term) ([]uint64, error) {
 	res := make([]uint64, len(ts))
 	if len(ts) == 0 {
+		return res, nil
+	}
+	if s.oneShot != nil {
+		m := &Model{Vars: s.oneShot}
+		memo := map[int]uint64{}
+		for i, t := range ts {
+			v, ok := s.ctx.evalDefault(t, m, memo)
+			if !ok {
+				return nil, fmt.Errorf("one-shot model cannot evaluate a term with uninterpreted functions")
+			}
+			res[i] = v
+		}
 		return res, nil
 	}
 	// we may not define new terms without disturbing the model in some solvers; z3 keeps the model
